@@ -16,6 +16,58 @@ import outcomes  # noqa: E402
 import streams  # noqa: E402
 
 
+def constructor_sweep(chk):
+    """every constructor of the C04 catalogue x versions 2..10 x both modes: never a foreign exception; and when a program
+    compiles in one mode only, the text it compiled to is judged by TealLegal.tla in the OTHER mode - if every instruction
+    of it exists there, nothing in the program is specific to a mode and PyTeal must accept it in both"""
+    import c04
+    import replay
+    import static
+    pt = replay.pt
+    res = {}
+    attempts = 0
+    for what, mk in c04.sweep():
+        for v in range(2, 11):
+            for mode, m in (("app", pt.Mode.Application), ("sig", pt.Mode.Signature)):
+                attempts += 1
+                try:
+                    res[(what, v, mode)] = ("teal", pt.compileTeal(mk(), m, version=v))
+                except replay.PYTEAL_ERRORS as e:
+                    res[(what, v, mode)] = ("pyteal", "%s: %s" % (type(e).__name__, str(e)[:200]))
+                except Exception as e:  # noqa: BLE001
+                    res[(what, v, mode)] = ("other", type(e).__name__)
+                    if replay._raise_site(e) == "?":
+                        continue           # raised by the catalogue entry itself (an accessor this PyTeal does not have), not by PyTeal
+                    chk.report("C20/crash:%s@%s/%s" % (type(e).__name__, replay._raise_site(e), what),
+                               "%s at version %d, %s mode: %s: %s" % (what, v, mode, type(e).__name__, str(e)[:200]), {"what": what, "v": v, "mode": mode})
+    entries, owners = [], []
+    for (what, v, mode), (cls, teal) in sorted(res.items()):
+        other = "sig" if mode == "app" else "app"
+        if cls == "teal" and res[(what, v, other)][0] == "pyteal":
+            t = static.text_record(teal, v, other, tag="v%d,%s-text-read-in-%s" % (v, mode, other))
+            entries.append({"texts": [t]})
+            owners.append((what, v, mode, other, teal))
+    lines, tres, errors = static.run(entries, "c20L", spec="LSpec")
+    for r in tres:
+        chk.add_tlc(r)
+    for e in errors:
+        chk.machinery_failure(e)
+    got = {ln[1]: ln[3] for ln in lines if ln[0] == "L"}
+    if len(got) != len(entries) and not errors:
+        chk.machinery_failure("%d cross-mode legality verdicts missing" % (len(entries) - len(got)))
+    legal_elsewhere = 0
+    for idx, why in sorted(got.items()):
+        if why == "":
+            what, v, mode, other, teal = owners[idx]
+            legal_elsewhere += 1
+            chk.report("C20/rejected-acceptable-in-%s-mode/%s" % (other, what),
+                       "%s at version %d compiles in %s mode to a text every instruction of which exists in %s mode too, but is refused there: %s" % (
+                           what, v, mode, other, res[(what, v, other)][1]), {"what": what, "v": v, "text": teal[:3000], "refusal": res[(what, v, other)][1]})
+    chk.notes["constructor_sweep"] = {"attempts": attempts, "teal": sum(1 for c, _ in res.values() if c == "teal"),
+                                      "refused": sum(1 for c, _ in res.values() if c == "pyteal"), "one_mode_only_judged_in_the_other": len(entries)}
+    return attempts
+
+
 def main():
     chk = common.Check("C20")
     tier, seed = common.tier(), common.seed()
@@ -66,12 +118,13 @@ def main():
             chk.report(kf or key, "%s at %s: %s: %s" % (c, o["tag"], r.get("err"), r.get("msg", "")[:200]),
                        {"recipe": e["recipe"] if not progs[idx].get("big") else {"big": progs[idx]["big"]},
                         "vars": progs[idx].get("vars", []), "mode": o["mode"], "st": r["st"], "outcome": o, "verdict": v})
+    nsweep = constructor_sweep(chk)
     for idx in sorted(verdicts)[:3]:
         if not progs[idx].get("big"):
             chk.sample({"recipe": entries[idx]["recipe"], "outcomes": [[o["tag"], o["cls"], o["err"]] for o in entries[idx]["outs"][:6]],
                         "verdict": verdicts[idx]})
     chk.cov["traces_validated_against_impl"] = sum(len(e["outs"]) for e in entries)
-    chk.cov["evaluations"] = sum(len(e["outs"]) for e in entries)
+    chk.cov["evaluations"] = sum(len(e["outs"]) for e in entries) + nsweep
     chk.cov["distinct_nontrivial"] = len(shapes)
     chk.notes.update({"recipes": len(progs), "compiled_to_teal": nteal, "rejected_with_pyteal_error": nerr,
                       "rule": "programs = finished behaviours of spec/Gen.tla (BFS per alphabet, sampled to a cap) plus "
